@@ -4,7 +4,7 @@
    model's atomicity assumption (each event touches one channel / the semaphore / the WaitGroup /
    shard-confined state) is what a data race would falsify.  `go test -race` runs of the harness are
    supporting evidence in the thorough tier, never a substitute for these theorems. *)
-From Verif Require Import Base.ListX Batch.Lts.
+From Verif Require Import Base.ListX Batch.Split Batch.Shard Batch.Lts Batch.Resp.
 
 (* Every interleaving of shard loops, export goroutines, Shutdown: never more than max_concurrency
    exports in flight (processor-wide, hence per metadata combination). *)
@@ -34,6 +34,66 @@ Theorem C11_blocked_can_proceed : forall lim evs s1 j,
   enabled s1 (Acquire j) \/ exists i, enabled s1 (ExportEnd i) \/ enabled s1 (Finish i).
 Proof. exact blocked_can_proceed. Qed.
 Print Assumptions C11_blocked_can_proceed.
+
+(* The response protocol (Batch/Resp.v): export goroutines answering callers over one-slot channels, callers
+   leaving when their count reaches zero or their context ends.  In every reachable state — every
+   interleaving of requests entering shards, batches being cut, deliveries, skips, receives, cancellations —
+   the accounting invariant holds ... *)
+Theorem C11_resp_invariant : forall evs st1, rrun rinit evs = Some st1 -> RInv st1.
+Proof. intros evs st1 H. exact (rrun_inv evs rinit st1 RInv_init H). Qed.
+Print Assumptions C11_resp_invariant.
+
+(* ... so an export goroutine that still has a tuple to answer is never blocked for ever on a departed
+   waiter: it can deliver, or skip, or the caller is still there to empty its slot. *)
+Theorem C11_export_not_stuck : forall evs st i w c tl,
+  rrun rinit evs = Some st -> nth_error (queues st) i = Some ((w, c) :: tl) ->
+  (exists s1, rstep st (Deliver i) = Some s1) \/
+  (exists s1, rstep st (Skip i) = Some s1) \/
+  (exists s1, rstep st (Receive w) = Some s1).
+Proof. intros evs st i w c tl H Hn. exact (export_not_stuck st i w c tl (rrun_inv evs rinit st RInv_init H) Hn). Qed.
+Print Assumptions C11_export_not_stuck.
+
+(* From every reachable state the response phase can be completed (every export goroutine finishes, so the
+   WaitGroup reaches zero and Shutdown returns), and no scheduler can make it run for ever. *)
+Theorem C11_responses_complete : forall evs st,
+  rrun rinit evs = Some st ->
+  exists more st1, forallb resp_event more = true /\ rrun st more = Some st1 /\ all_answered st1.
+Proof.
+  intros evs st H. destruct (responses_complete (measure st) st (rrun_inv evs rinit st RInv_init H) (le_n _)) as (m & s1 & H1 & H2 & H3 & _).
+  exists m, s1. repeat split; assumption.
+Qed.
+Print Assumptions C11_responses_complete.
+
+Theorem C11_response_phase_bounded : forall evs st more st1,
+  rrun rinit evs = Some st -> forallb resp_event more = true -> rrun st more = Some st1 ->
+  (length more <= measure st)%nat.
+Proof.
+  intros evs st more st1 H Hm Hr. pose proof (response_phase_bounded more st st1 (rrun_inv evs rinit st RInv_init H) Hm Hr). lia.
+Qed.
+Print Assumptions C11_response_phase_bounded.
+
+(* The precondition of Resp.v's Spawn event (a batch never addresses more items to a caller than the shard
+   still holds for it) is what Shard.v proves about sendItems: the tuples cut for a waiter come out of its
+   pending entries. *)
+Theorem C11_spawn_precondition : forall d w c trig s s1 e,
+  Inv d s -> (0 < cnt d s)%N -> send_items d c trig s = (s1, e) ->
+  (tuples_for w (s_tuples d e) + pend_for w (pending d s1) = pend_for w (pending d s))%N.
+Proof. intros d w c trig s s1 e HI Hp H. exact (send_items_for d w c trig s s1 e HI Hp H). Qed.
+Print Assumptions C11_spawn_precondition.
+
+(* the trace check used on the logged runs only accepts traces of the model *)
+Theorem C11_resp_check_sound : forall evs, raccepts evs = true -> exists full st, rrun rinit full = Some st.
+Proof.
+  intros evs H. unfold raccepts in H. destruct (run_filled rinit evs) as [s1|] eqn:E; [|discriminate].
+  destruct (run_filled_sound evs rinit s1 E) as [full Hf]. exists full, s1. exact Hf.
+Qed.
+Print Assumptions C11_resp_check_sound.
+
+Example C11_resp_example :
+  raccepts [NewCaller 3%Z; NewCaller 2%Z; Spawn [(0%nat, 2%Z)]; Spawn [(0%nat, 1%Z); (1%nat, 1%Z)]; Spawn [(1%nat, 1%Z)];
+            Deliver 0; Deliver 1; Deliver 1; Deliver 2] = true /\
+  raccepts [NewCaller 3%Z; Spawn [(0%nat, 2%Z)]; Spawn [(0%nat, 2%Z)]] = false.
+Proof. split; vm_compute; reflexivity. Qed.
 
 Example C11_example :
   accepts 1 [NewShard; Decide 0; Acquire 0; Decide 0; ExportEnd 0; Finish 0; Acquire 0; CallShutdown;
